@@ -113,6 +113,9 @@ def gen_instance(seed, idx):
   fmt = {'geo': ['int', 'int', 'str'][idx % 3], 'date': ['ts', 'ts', 'str', 'ts', 'pydate'][idx % 5],
          'resp': ['float', 'float', 'float', 'int'][idx % 4]}
   geo_ids = ids_int if fmt['geo'] == 'int' else ['geo_%03d' % x for x in ids_int]
+  if fmt['geo'] == 'int' and idx % 5 == 2:
+    # 64-bit identifiers (hashed ids): neighbouring integers that are not all representable as doubles
+    geo_ids = [2 ** 53 + 1 + k for k in range(ngeo)]    # consecutive: every odd one lies between two doubles
   return {'idx': idx, 'seed': seed, 'kind': kind, 'ngeo': ngeo, 'nd': nd, 'groups': groups,
           'periods': periods, 'vals': vals.tolist(), 'planted_noisy': planted_noisy,
           'planted_out': planted_out, 'geo_ids': geo_ids, 'fmt': fmt, 'missing': missing,
